@@ -17,7 +17,7 @@ InitObs == /\ idx \in 1..Len(ObsLines)
            /\ LET L == ObsLines[idx] IN
               /\ n = L.world.n /\ parent = Fn(L.world.parent) /\ kind = FnS(L.world.kind) /\ span = FnSp(L.world.span)
               /\ hdr = ToSet(L.pre.hdr) /\ data = ToSet(L.pre.data) /\ failed = ToSet(L.pre.failed) /\ tip = L.pre.tip
-           /\ linked = {} /\ seq = [b \in Ids |-> 0] /\ nextSeq = 0 /\ unlinked = <<>> /\ cand = {} /\ ninv = 0
+           /\ linked = {} /\ seq = [b \in Ids |-> 0] /\ nextSeq = 0 /\ unlinked = <<>> /\ cand = {} /\ ninv = 0 /\ minv = ToSet(ObsLines[idx].inv)
            /\ lastAct = <<"observed", idx>> /\ lastRes = <<"none">>
 Stutter == UNCHANGED <<vars, idx>>
 Post == ObsLines[idx].post
@@ -25,6 +25,7 @@ Act == ObsLines[idx].act
 PH == ToSet(Post.hdr)  PD == ToSet(Post.data)  PF == ToSet(Post.failed)
 \* C08 on the observed post state
 ObsTipIsMostWork == TipIsMostWorkIn(parent, span, PH, PD, PF, Post.tip)
+ObsTipIsMostWorkTrue == TipIsMostWorkTrueIn(parent, span, kind, ToSet(ObsLines[idx].postinv), PH, PD, Post.tip)
 ObsNoFailedInChain == NoFailedInChainIn(parent, PF, Post.tip)
 ObsChainHasData == ChainHasDataIn(parent, PD, Post.tip)
 ObsNoBadInChain == \A x \in AncP(parent, Post.tip) : kind[x] = "ok"
